@@ -394,6 +394,13 @@ impl World {
         .await;
     }
 
+    /// Pool message `m` is lost on its way to node `i`.
+    pub fn lose(&mut self, i: usize, m: usize) {
+        if self.nodes[i].is_some() && m < self.pool.len() {
+            self.node_mut(i).delivered.insert(m);
+        }
+    }
+
     /// The view timer of node `i` fires: its clock jumps to the deadline first.
     pub async fn timer(&mut self, i: usize) {
         let Some(node) = self.nodes[i].as_ref() else { return };
